@@ -68,6 +68,10 @@ type Params struct {
 	ImprintHash string `json:",omitempty"` // tst: sha256 (default) | sha1 | sha384 | sha512
 	NonceHex    string `json:",omitempty"`
 	ESS         string `json:",omitempty"` // tst: v2 (default) | v1 | none
+	// WrapTST (tst only): "" = eContent is OCTET STRING { TSTInfo } | "octet" = the TSTInfo sits in a
+	// second, dummy OCTET STRING (eContent octets are 04 LL TSTInfo, and those octets are what the
+	// authority digests and signs), as some authorities emit
+	WrapTST string `json:",omitempty"`
 	// Quirk: encodings DER discourages but Go's parser accepts.
 	// empty-certs: certificates [0] present with no members (needs Certs=none);
 	// empty-crls: crls [1] present with no members (needs CRLs=no);
@@ -91,6 +95,9 @@ func (p Params) String() string {
 	}
 	if p.ESS != "" {
 		s += " ess=" + p.ESS
+	}
+	if p.WrapTST != "" {
+		s += " wraptst=" + p.WrapTST
 	}
 	if p.Quirk != "" {
 		s += " quirk=" + p.Quirk
@@ -380,6 +387,9 @@ func (g *Gen) contentOf(p Params) (ctype, inner, content []byte) {
 			items = append(items, BigInt(n))
 		}
 		info := Seq(items...)
+		if p.WrapTST == "octet" {
+			return oidTSTInfo, Octets(Octets(info)), Octets(info)
+		}
 		return oidTSTInfo, Octets(info), info
 	}
 	panic("econtent " + p.EContent)
